@@ -12,6 +12,10 @@
 //                         critical section before `heap.put(` (a key is never tracked twice)
 //       getFaultsAreMisses : manager.go `get` blanks the item (`*it = item{}`) when `UnmarshalMsg` fails, and the hit
 //                         condition in cache.go calls `manager.loadBody(` (no unchecked `manager.getRaw(` left)
+//       storedSlicesCopied : every assignment in cache.go to `e.body`, `e.ctype`, `e.cencoding` or `e.headers[…]` (the
+//                         byte slices the stored item keeps) has `utils.CopyBytes(…)` or `nil` on its right-hand side,
+//                         and there are at least four such copies: the item never aliases buffers of the response,
+//                         which fasthttp recycles with the connection context
 //       keyMapMaintained : heap.go: `removeInternal` deletes the removed entry's key from `h.keys`, `put`
 //                         assigns `h.keys[key]`, `removeKey` looks the index up in `h.keys` and calls `h.remove`
 //
@@ -385,6 +389,60 @@ func main() {
 	})
 	getFaultsAreMisses := blanksItem && loadBodyInCond && getRawCalls == 0
 
+	// the byte slices the item keeps are copies
+	isItemSlice := func(e ast.Expr) bool {
+		if ix, ok := e.(*ast.IndexExpr); ok {
+			se, ok := ix.X.(*ast.SelectorExpr)
+			if !ok || se.Sel.Name != "headers" {
+				return false
+			}
+			id, ok := se.X.(*ast.Ident)
+			return ok && id.Name == "e"
+		}
+		se, ok := e.(*ast.SelectorExpr)
+		if !ok {
+			return false
+		}
+		id, ok := se.X.(*ast.Ident)
+		if !ok || id.Name != "e" {
+			return false
+		}
+		return se.Sel.Name == "body" || se.Sel.Name == "ctype" || se.Sel.Name == "cencoding"
+	}
+	copies, uncopied := 0, 0
+	ast.Inspect(f, func(n ast.Node) bool {
+		as, ok := n.(*ast.AssignStmt)
+		if !ok || len(as.Lhs) != len(as.Rhs) {
+			return true
+		}
+		for i, l := range as.Lhs {
+			if !isItemSlice(l) {
+				continue
+			}
+			switch r := as.Rhs[i].(type) {
+			case *ast.Ident:
+				if r.Name != "nil" {
+					uncopied++
+				}
+			case *ast.CallExpr:
+				se, ok := r.Fun.(*ast.SelectorExpr)
+				id, ok2 := (ast.Expr)(nil), false
+				if ok {
+					id, ok2 = se.X, true
+				}
+				if pk, ok3 := id.(*ast.Ident); ok && ok2 && ok3 && pk.Name == "utils" && se.Sel.Name == "CopyBytes" {
+					copies++
+				} else {
+					uncopied++
+				}
+			default:
+				uncopied++
+			}
+		}
+		return true
+	})
+	storedSlicesCopied := copies >= 4 && uncopied == 0
+
 	// ConfigDefault
 	cf, err := parser.ParseFile(fset, filepath.Join(*repo, "middleware/cache/config.go"), nil, 0)
 	if err != nil {
@@ -464,6 +522,7 @@ func main() {
 	fmt.Fprintf(&sb, "def storeDropsTracked : Bool := %v\n", storeDropsTracked)
 	fmt.Fprintf(&sb, "def keyMapMaintained : Bool := %v\n", keyMapMaintained)
 	fmt.Fprintf(&sb, "def getFaultsAreMisses : Bool := %v\n", getFaultsAreMisses)
+	fmt.Fprintf(&sb, "def storedSlicesCopied : Bool := %v\n", storedSlicesCopied)
 	sb.WriteString("\nend C14.Facts\n")
 	if err := os.MkdirAll(filepath.Dir(*out), 0o755); err != nil {
 		die("%v", err)
